@@ -1,6 +1,8 @@
 """C14 - accepted input yields a well-formed, reproducible expansion."""
 import random
 import corpus
+import parsetie
+import t1
 import t2
 from vlib import hexs
 
@@ -50,6 +52,8 @@ def run(ck):
         if m["part"] == "validity":
             ck.report("invalid-rust:" + hexs(m["text"])[:40], "the macro accepts the invocation but the generated code is not syntactically valid Rust", dict(invocation=m["text"], detail=m["detail"]))
     histories(ck)
+    inputs, outs = t1.run(ck)
+    parsetie.record(ck, [t for _, t in inputs], outs, "C14: node ids handed out by the parser, speculative parses included")
     others = [m for m in mm if m["part"] not in ("validity", "wellformed")]
     if others and not [v for v in ck.violations if not v["no_input"]]:
         ck.report("corr:T2", "the model of the node tree / code generator no longer matches the real expansion (%d inputs differ)" % len(others),
